@@ -38,10 +38,15 @@ def decode(stream):
     return data, verdict, exc, out
 
 
+SLOW_GENERATORS = {"real_pictures", "signal_range", "static_ramps", "static_noise", "lossless_quantization",
+                   "interlace_mode_and_pixel_aspect_ratio", "source_parameters_encodings", "custom_quantization_matrix"}
+
+
 def one_config(job):
-    seed, idx = job
-    rng = random.Random((seed << 20) + idx + 77)
-    res = {"idx": idx, "problems": [], "cases": 0, "names": [], "notes": [], "by_case": {}}
+    seed, idx = job[0], job[1]
+    focus = len(job) > 2 and job[2]     # focused sweep: only the cheap, slice/stream-structure generators
+    rng = random.Random((seed << 20) + idx + 77 + (5000000 if focus else 0))
+    res = {"idx": idx, "focus": len(job) > 2 and bool(job[2]), "problems": [], "cases": 0, "names": [], "notes": [], "by_case": {}}
     import time
     t0 = time.time()
     try:
@@ -52,10 +57,19 @@ def one_config(job):
         import vc2_conformance.test_cases.decoder  # noqa: registers generators
         from vc2_conformance.picture_generators import mid_gray, static_sprite, repeat_pictures
         kw = common.random_small_config(rng, max_w=16, max_h=8)
+        if idx % 3 == 0 or focus:
+            # every third configuration: a multi-row, multi-column slice grid (slice-indexed generators)
+            kw["slices_x"], kw["slices_y"] = rng.choice([(2, 2), (3, 2), (2, 3), (4, 3), (3, 3)])
+            if kw["fragment_slice_count"]:
+                kw["fragment_slice_count"] = rng.randint(1, kw["slices_x"] * kw["slices_y"])
+            if not kw["lossless"]:
+                n = kw["slices_x"] * kw["slices_y"]
+                kw["picture_bytes"] = n * rng.randint(8, 64) + rng.randrange(0, n)
         if not kw["lossless"] and rng.random() < 0.6:
             # most test cases want a comfortable byte budget
             n = kw["slices_x"] * kw["slices_y"]
-            kw["picture_bytes"] = n * rng.randint(8, 64)
+            # not always a multiple of the slice count: low-delay slices then differ in size
+            kw["picture_bytes"] = n * rng.randint(8, 64) + (rng.randrange(0, n) if rng.random() < 0.7 else 0)
         cf = common.make_codec_features(**kw)
         res["config"] = common.describe_config(kw)
         vp, pcm = cf["video_parameters"], cf["picture_coding_mode"]
@@ -76,6 +90,8 @@ def one_config(job):
 
         names = []
         for gen in REG.iter_independent_generators(cf):
+            if focus and gen.args[0].__name__ in SLOW_GENERATORS:
+                continue
             try:
                 cases = list(gen())
             except encoder.UnsatisfiableCodecFeaturesError as e:
@@ -146,12 +162,14 @@ def one_config(job):
 
 def run(ctx):
     ctx.extra["rule"] = (
-        "oracle: random small configurations (common.random_small_config), every registered decoder test case generator, "
+        "oracle: random small configurations (common.random_small_config), every registered decoder test case generator (plus a focused "
+        "sweep of 5x more configurations with multi-row/column slice grids and uneven low-delay slice sizes over the cheap generators), "
         "each test case serialised with autofill and validated; mid-grey cases compared with exact mid-grey, encoding-variant "
         "cases with the decode of the plain encoding of the same source, picture-number cases with the documented numbers; "
         "evaluations = test cases; distinct non-trivial = (configuration, test case name) pairs that validated and decoded >= 1 picture")
     n = ctx.pick(14, 160)
-    results = common.pmap(one_config, [(ctx.seed, i) for i in range(n)], chunksize=1)
+    nf = ctx.pick(70, 1200)
+    results = common.pmap(one_config, [(ctx.seed, i) for i in range(n)] + [(ctx.seed, i, True) for i in range(nf)], chunksize=1)
     for r in results:
         st = r.get("status", "?")
         ctx.distribution[st.split(":")[0]] = ctx.distribution.get(st.split(":")[0], 0) + 1
@@ -160,11 +178,11 @@ def run(ctx):
         ctx.evaluations += r["cases"]
         bad_cases = set(p["case"] for p in r["problems"])
         for nme in range(r["cases"] - len(bad_cases)):
-            ctx.nontrivial.add("%d/%d" % (r["idx"], nme))
+            ctx.nontrivial.add("%s%d/%d" % ("f" if r.get("focus") else "", r["idx"], nme))
         if st.startswith("harness-exception"):
             ctx.obligation("harness:C05 config %d" % r["idx"], False, "harness", r.get("detail", ""))
         for p in r["problems"]:
-            ctx.violation(p["key"] + ":" + p["case"].split("[")[0], {"seed": ctx.seed, "idx": r["idx"], "config": r.get("config"), "case": p["case"]},
+            ctx.violation(p["key"] + ":" + p["case"].split("[")[0], {"seed": ctx.seed, "idx": r["idx"], "focus": bool(r.get("focus")), "config": r.get("config"), "case": p["case"]},
                           p["detail"])
         for nt in r["notes"]:
             ctx.note("config %d: %s" % (r["idx"], nt))
@@ -175,7 +193,7 @@ def run(ctx):
 
 def replay(ctx, data):
     inp = data["input"]
-    r = one_config((inp["seed"], inp["idx"]))
+    r = one_config((inp["seed"], inp["idx"], bool(inp.get("focus"))))
     hits = [p for p in r["problems"] if p["case"] == inp.get("case")] or r["problems"]
     print(r.get("status"), hits[:3])
     return 1 if hits else 0
